@@ -231,14 +231,15 @@ theorem levels_congr (cfg : Cfg) (b1 b2 : Nat → Nat → Job → Best) (n : Nat
         rw [ih (lvl + 1) p.1 p.2 s1 hQ']
 
 /-- the root job of a graph whose edge sources are node ids -/
-theorem root_queueOK (edges : List Edge) (n : Nat) (hn : 2 ≤ n) (hsrc : ∀ e ∈ edges, e.1 < n) :
+theorem root_queueOK (edges : List Edge) (n : Nat) (hn : 2 ≤ n) (hsrc : ∀ e ∈ edges, e.1 < n)
+    (hsmall : 2 * edges.length + 6 < Tbx.Flow.INV) :
     QueueOK n [{ edges := edges, ids := List.range n }] where
   jobs := by
     intro job hj
     simp only [List.mem_singleton] at hj
     subst hj
     exact ⟨List.nodup_range, fun x hx => List.mem_range.mp hx, by simpa using hn,
-      fun e he => List.mem_range.mpr (hsrc e he)⟩
+      fun e he => List.mem_range.mpr (hsrc e he), hsmall⟩
   disj := by simp
 
 end Tbx.Chipper
